@@ -15,6 +15,9 @@ CHECKS = {
  "C04": ("model_checking", "exhaustive feeding of the C01 input space to every parser (own family: all inputs; other families: all bases and all mutants of default bases), all 65,536 type codes for type-parameterised functions, reflective invocation of every exported method with argument menus; recover() + watchdog",
          "Every execution in the bounded space is run to completion under recover(); a panic anywhere or a call exceeding the watchdog is a violation with a replayable input.",
          "No-hang is decided by a generous per-call watchdog in this tier (plus the step-count bound of the instrumented build, see C18 notes)."),
+ "C14": ("model_checking", "E1 over constructor argument tuples x single-defect menu (explicit-state: constructor -> Validate -> Bytes -> Read -> Bytes chains on live values), plus the parser-output side over the C01 input space",
+         "Every model value within the deviation bound is combined with every documented structural defect (and 'none'); the chain constructor/Validate/Bytes/parse is executed on the real code and the three inclusion clauses are checked. Every parser-accepted value that validates must round-trip cleanly.",
+         "Known findings record constructor/validator drifts pinned by the repository's own tests (NewOfflineSignature expires=0, NewKeysAndCert nil keys, NewRouterInfo)."),
  "C15": ("exploration", "exhaustive sweep: 8 published values x all 65,536 offsets x 3 structures, boundary sets for every other time field, exhaustive small lease-date tuples and permutations; oracle math/big on raw fields",
          "The 16-bit offset axis is covered completely for every boundary published value; lease-set extremum over all tuples of 1..6 dates from a 3-value menu, all permutations of 4 dates and every extremum position among 16.",
          "IsExpired checked at +-1 day only (time-dependent)."),
